@@ -19,6 +19,11 @@ Run-time contracts evaluated on the real `bnp.open(path, 'w'|'a').write(...)` / 
                     its slices / masks as the pieces, a selection taken after a write -> every write gives the reference
                     bytes of its rows, and the object the caller holds is unchanged by the writes (frame condition:
                     deep snapshot of the columns before == after; a read table still equals its source file)
+  concat-write      SEVERAL table objects - read (lazily) from files of their own, the chunks of one file as read_chunks
+                    delivers them, or built - each untouched or row-selected, joined with np.concatenate and the join
+                    written once / as one of several pieces / nested / row-selected again -> reference serialisation of
+                    the selected rows of the tables in order (= what writing the tables one after the other gives),
+                    source header once, and read back
 
 Scope: per type a pool of K hand-built rows with field widths 1..long, every table of 0..2 rows over the pool and
 3-row tables (quick: a Latin-square sample, thorough: all), every composition of the rows into pieces plus empty
@@ -38,6 +43,9 @@ text is longer than 16 characters, and the same table with short float values is
 Faults that need a derived / re-used table object (the same rows as freshly built tables are fine):
 `row-selection:[lazy:][empty:]<type | any-type>`, `rewrite-same-table:[lazy:][<mode>:]<type | any-type>` (any-type: the
 simplest table, Interval, fails in the same history), `table-changed-by-write:[lazy:]<type>`.
+Faults that need the join of several tables (every table alone and the tables written one after the other are fine):
+`concat-write:<lazy|read|chunks|built>:<a>+<b>:<type | any-type>` with <a>, <b> in whole | selected | empty = the first adjacent
+pair of tables whose join alone fails (see _classify_concat).
 """
 import gzip
 import itertools
@@ -240,8 +248,9 @@ def sequence_encoding(bnp, variant):
     raise KeyError(variant)
 
 
-def build_table(bnp, spec, rows, variant):
-    """the bnpdataclass object for `rows`, built through the public constructor"""
+def build_table(bnp, spec, rows, variant, universe=None):
+    """the bnpdataclass object for `rows`, built through the public constructor (universe: the identifiers of the
+    StringEncoding of variant 'strenc', for tables that are to share one encoding)"""
     cls = table_class(bnp, spec)
     cols = [[r[i] for r in rows] for i in range(len(spec.fields))]
     if rows:
@@ -251,7 +260,7 @@ def build_table(bnp, spec, rows, variant):
                 cols[i] = bnp.as_encoded_array(cols[i], enc)
             if variant == "strenc" and fname == "chromosome":
                 from bionumpy.encodings.string_encodings import StringEncoding
-                universe = sorted(set(IDS) | set(cols[i]))
+                universe = sorted(set(IDS) | set(cols[i]) | set(universe or ()))
                 cols[i] = StringEncoding(universe).encode(bnp.as_encoded_array(cols[i]))
     return cls(*cols)
 
@@ -1025,6 +1034,268 @@ def exec_derived(col, tmp, case):
             col.fail(sig, case, r[2])
 
 
+# ------------------------------------------------------------- several table objects joined with np.concatenate
+
+CONCAT_SELS = ("whole", "mask", "tail", "list", "head", "rev", "stride", "empty", "repeat", "last")
+
+
+def sel_steps(name, n):
+    """the named row selection of an n-row table as steps of select_rows / apply_selection; 'whole' = the object as it
+    was read / built, untouched"""
+    if name == "whole":
+        return []
+    if name == "mask":
+        return [["mask", [i != n // 2 for i in range(n)]]]
+    if name == "tail":
+        return [_sl(1, None)]
+    if name == "head":
+        return [_sl(None, max(n - 1, 0))]
+    if name == "rev":
+        return [_sl(None, None, -1)]
+    if name == "stride":
+        return [_sl(None, None, 2)]
+    if name == "empty":
+        return [_sl(0, 0)]
+    if name == "list":
+        return [["list", _perm(n)]]
+    if name == "repeat":
+        return [["list", [0, 0, n - 1]]]
+    if name == "last":
+        return [["array", [n - 1]]]
+    raise ValueError(name)
+
+
+def group_sizes(name, k):
+    """how the k (selected) tables are grouped into written pieces; every group of more than one table is joined with
+    np.concatenate and written as one piece"""
+    if k < 2 or name in ("all", "nested"):
+        return [k]
+    if name == "first-alone":
+        return [1, k - 1]
+    if name == "last-alone":
+        return [k - 1, 1]
+    if name == "pairs":
+        return [2] * (k // 2) + ([1] if k % 2 else [])
+    if name == "each":
+        return [1] * k
+    raise ValueError(name)
+
+
+def evaluate_concat(tmp, case, tag="c"):
+    """SEVERAL table objects - each read from a reference-written file of its own (origin files), the chunks of one
+    file as read_chunks delivers them (origin chunks), or freshly built (origin built) - each left untouched or
+    row-selected (sels, by name, cyclic over the tables), joined with np.concatenate in groups (groups), optionally
+    row-selected again (post), and every group written as one piece (mode / gz as in write_pieces).
+    Oracle: the reference serialisation of the selected rows of the tables in order, source header once.
+    -> {"write": outcome, "readback": outcome | None, "parts": [...]}   (outcomes as in evaluate_write; 'skip': out of scope;
+    'source': read_chunks did not deliver the rows of the file - not a matter of this contract's write)"""
+    import traceback
+    import numpy as np
+    import bionumpy as bnp
+    spec = SPECS[case["type"]]
+    origin, header, gz, mode = case["origin"], case.get("header") or "", case["gz"], case["mode"]
+    bt = buffer_type(bnp, spec)
+    path = os.path.join(tmp, tag + "out" + spec.suffix + (".gz" if gz else ""))
+    res = {"write": None, "readback": None, "parts": None}
+    try:
+        if origin == "built":
+            part_rows = case["parts"]
+            # tables that are joined share the encoding of their columns (one StringEncoding universe for all of them)
+            universe = sorted(set(r[i] for pr in part_rows for r in pr for i, (f, _) in enumerate(spec.fields) if f == "chromosome"))
+            tables = [build_table(bnp, spec, r, case.get("variant"), universe) for r in part_rows]
+        elif origin == "files":
+            part_rows = case["parts"]
+            tables = []
+            for i, r in enumerate(part_rows):
+                src = os.path.join(tmp, "%ssrc%d%s" % (tag, i, spec.suffix))
+                with open(src, "wb") as f:
+                    f.write(source_bytes(spec, r, header))
+                tables.append(bnp.open(src, buffer_type=bt).read())
+        elif origin == "chunks":
+            src = os.path.join(tmp, "%ssrc%s" % (tag, spec.suffix))
+            with open(src, "wb") as f:
+                f.write(source_bytes(spec, case["rows"], header))
+            tables = list(bnp.open(src, buffer_type=bt).read_chunks(min_chunk_size=case["chunk"]))
+            lens = [len(t) for t in tables]
+            if sum(lens) != len(case["rows"]):
+                res["write"] = ("source", "", "read_chunks delivered chunks of %r rows for a file of %d rows" % (lens, len(case["rows"])))
+                return res
+            part_rows = cut(case["rows"], lens)
+        else:
+            raise ValueError(origin)
+    except Exception as e:
+        res["write"] = ("exc", type(e).__name__, traceback.format_exc()[-500:])
+        return res
+    lazy = bool(tables) and all(hasattr(t, "get_data_object") for t in tables)
+    if header and not lazy:
+        res["write"] = ("skip", "", "")          # see exec_lazy: an eagerly read table does not carry the header in its slices
+        return res
+    names = [case["sels"][i % len(case["sels"])] for i in range(len(part_rows))]
+    sels = [sel_steps(nm, len(r)) for nm, r in zip(names, part_rows)]
+    exp_parts = [select_rows(r, s) for r, s in zip(part_rows, sels)]
+    res["parts"] = {"rows": part_rows, "names": names, "lazy": lazy}
+    post = case.get("post")
+    try:
+        if os.path.exists(path):
+            os.unlink(path)
+        selected = [apply_selection(t, s) for t, s in zip(tables, sels)]
+        pieces, exp_pieces, a = [], [], 0
+        for g in group_sizes(case["groups"], len(selected)):
+            grp, er = selected[a:a + g], [r for p in exp_parts[a:a + g] for r in p]
+            a += g
+            if g == 1:
+                piece = grp[0]
+            else:
+                if case["groups"] == "nested" and g > 2:
+                    inner = np.concatenate(grp[:-1])
+                    if hasattr(inner, "get_data_object") != hasattr(grp[-1], "get_data_object"):
+                        # the join of lazy FASTA/FASTQ tables is a materialised table; np.concatenate of a lazy and a
+                        # materialised table is refused by the library (assertion), it is not a table to write: out of scope
+                        res["write"] = ("skip", "", "")
+                        return res
+                    piece = np.concatenate([inner, grp[-1]])
+                else:
+                    piece = np.concatenate(grp)
+                if post:
+                    steps = sel_steps(post, len(er))
+                    piece, er = apply_selection(piece, steps), select_rows(er, steps)
+            pieces.append(piece)
+            exp_pieces.append(er)
+        write_pieces(bnp, path, bt, pieces, mode if len(pieces) > 1 or mode != "append" else "one")
+        data = read_file(path)
+    except Exception as e:
+        res["write"] = ("exc", type(e).__name__, traceback.format_exc()[-500:])
+        return res
+    expected = [r for er in exp_pieces for r in er]
+    res["parts"]["expected"] = expected
+    exp_header = header_marker(spec) + b"\n" if spec.header == "columns" else (header.encode() if header and lazy else None)
+    ok, kind, msg = check_content(spec, expected, data, exp_header)
+    if not ok:
+        res["write"] = ("header", kind[7:], msg) if kind.startswith("header") else ("body", "", msg)
+        return res
+    res["write"] = ("ok", "", "")
+    if case.get("readback"):
+        try:
+            back = _force(bnp.open(path, buffer_type=bt).read(), spec)
+            ok, msg = compare_readback(spec, expected, back)
+            res["readback"] = ("ok", "", "") if ok else ("diff", "", msg)
+        except Exception as e:
+            res["readback"] = ("exc", type(e).__name__, traceback.format_exc()[-500:])
+    return res
+
+
+def classify_concat(tmp, case, outcome, parts):
+    key = ("concat", case["type"], case.get("variant"), case["origin"], bool(case.get("header")), tuple(case["sels"]), case["groups"],
+           case["mode"], case["gz"], case.get("post"), tuple(len(r) for r in parts["rows"]), outcome[0], outcome[1])
+    if key not in _memo:
+        _memo[key] = _classify_concat(tmp, case, outcome, parts)
+    return _memo[key]
+
+
+def _part_class(name, n):
+    idx = select_rows(list(range(n)), sel_steps(name, n))
+    return "whole" if name == "whole" else "empty" if not idx else "selected"
+
+
+def _classify_concat(tmp, case, outcome, parts):
+    """signature of a failed write of joined tables.
+    1. a table of the join fails as the single write of that (selected) table: the class of that write (classify_derived);
+    2. the same tables written one after the other (no np.concatenate) fail too: the class of the fresh pieces if the same
+       rows as freshly built tables fail, else 'pieces-of-several-tables:..';
+    3. otherwise the fault needs the join: 'concat-write:<lazy|read|chunks|built>:<a>+<b>:<type | any-type>' where <a>+<b> is
+       the first adjacent pair of tables (whole | selected | empty) whose join alone, written once, fails
+       ('<k>-tables' if no pair does; 'chunks' if it needs the chunks of one file rather than tables of separate files)."""
+    rows, names, lazy = parts["rows"], parts["names"], parts["lazy"]
+    origin, header, mode, gz = case["origin"], case.get("header") or "", case["mode"], case["gz"]
+    source = "built" if origin == "built" else "read"
+    for r, nm in zip(rows, names):
+        dcase = _derived(case["type"], case.get("variant"), r, [sel_steps(nm, len(r))], source=source, header=header)
+        single = evaluate_derived(tmp, dcase, tag="probe")["write"]
+        if single[0] not in ("ok", "skip"):
+            return classify_derived(tmp, dcase, single)
+    label = "built:" if origin == "built" else ("lazy:" if lazy else "read:")
+    each = evaluate_concat(tmp, dict(case, groups="each", post=None, readback=False), tag="probe")["write"]
+    if each[0] not in ("ok", "skip"):
+        exp = [select_rows(r, sel_steps(nm, len(r))) for r, nm in zip(rows, names)]
+        fmode = mode if len(exp) > 1 and mode != "one" else "multi"
+        fresh_case = _fresh_write_case(case, [x for e in exp for x in e], [len(e) for e in exp], fmode, gz)
+        fresh = evaluate_write(tmp, fresh_case, tag="probe")["write"]
+        if fresh[0] != "ok":
+            return classify_write(tmp, fresh_case, fresh)
+        if each[0] == "header":
+            return header_signature(fmode, "", "header-" + each[1], all(len(e) == 0 for e in exp))
+        return "pieces-of-several-tables:%s%s:%s%s" % (label, fmode, case["type"], _outcome_tail(each))
+    zpart = ""
+    if gz and evaluate_concat(tmp, dict(case, gz=False, readback=False), tag="probe")["write"][0] == "ok":
+        zpart = ":gz-only"
+    pattern = None
+    porigin = "built" if origin == "built" else "files"
+    for i in range(len(rows) - 1):
+        pcase = dict(case, origin=porigin, parts=rows[i:i + 2], sels=names[i:i + 2], groups="all", mode="one", gz=False, post=None,
+                     readback=False)
+        if evaluate_concat(tmp, pcase, tag="probe")["write"][0] not in ("ok", "skip"):
+            cls = [_part_class(names[i], len(rows[i])), _part_class(names[i + 1], len(rows[i + 1]))]
+            if "empty" in cls:       # is it a matter of the EMPTY selection?  not if a non-empty selection in its place fails too
+                alt = [("mask" if c == "empty" else nm) for c, nm in zip(cls, names[i:i + 2])]
+                arows = [(r * 2 if c == "empty" and len(r) < 2 else r) for c, r in zip(cls, rows[i:i + 2])]
+                if all(arows) and evaluate_concat(tmp, dict(pcase, sels=alt, parts=arows), tag="probe")["write"][0] not in ("ok", "skip"):
+                    cls = ["selected" if c == "empty" else c for c in cls]
+            pattern = "+".join(cls)
+            break
+    if pattern is None:
+        if origin == "chunks":
+            whole = dict(case, origin="files", parts=rows, sels=names, readback=False)
+            if evaluate_concat(tmp, whole, tag="probe")["write"][0] in ("ok", "skip"):
+                label = "chunks:"
+        pattern = "%d-tables" % len(rows)
+        if case.get("post") and evaluate_concat(tmp, dict(case, post=None, readback=False), tag="probe")["write"][0] == "ok":
+            pattern += ":then-selected"
+    # the same join of the simplest delimited table (Interval; for Interval itself: Bed6) fails too: not a matter of this type
+    tpart = case["type"]
+    other = "bed6" if case["type"] == "interval" and not case.get("variant") else "interval"
+    ip = pool(other, None, "quick")
+    irows, a = [], 0
+    for r in rows:
+        irows.append([ip[(a + j) % len(ip)] for j in range(len(r))])
+        a += len(r)
+    icase = dict(case, type=other, variant=None, origin=porigin, parts=irows, sels=names, header="", readback=False)
+    if evaluate_concat(tmp, icase, tag="probe")["write"][0] not in ("ok", "skip"):
+        tpart = "any-type"
+    return "concat-write:%s%s:%s%s%s" % (label, pattern, tpart, zpart, _outcome_tail(outcome))
+
+
+def exec_concat(col, tmp, case):
+    res = evaluate_concat(tmp, case)
+    w, r = res["write"], res["readback"]
+    if w[0] == "skip":
+        return
+    label = {"built": "built", "files": "read", "chunks": "chunks"}[case["origin"]]
+    col.case(case, contract="concat-write:%s:%s" % (label, case["groups"]) + (":gz" if case["gz"] else ""))
+    if w[0] == "source":
+        col.fail("concat-write:chunks:source-chunks-lose-rows", case, w[2])
+        return
+    if w[0] != "ok":
+        if res["parts"] is None:
+            sig = "concat-write:%s:source:%s:exception:%s" % (label, case["type"], w[1])
+        else:
+            sig = classify_concat(tmp, case, w, res["parts"])
+            w = (w[0], w[1], "tables of %r rows, selections %r, groups %s (%s): %s" % (
+                [len(x) for x in res["parts"]["rows"]], res["parts"]["names"], case["groups"], case["mode"], w[2]))
+        col.fail(sig, case, w[2])
+        return
+    if r is not None:
+        col.case(dict(case, k="read-back"), contract="read-back" + (":gz" if case["gz"] else ""))
+        if r[0] != "ok":
+            expected = res["parts"]["expected"]
+            wcase = dict(_fresh_write_case(case, expected, [len(expected)], "one", case["gz"]), readback=True)
+            fresh = evaluate_write(tmp, wcase, tag="probe")["readback"]
+            if fresh is not None and fresh[0] != "ok":
+                sig = _readback_signature(tmp, wcase, fresh)
+            else:
+                sig = "read-back:concat:%s%s" % (case["type"], ":exception:" + r[1] if r[0] == "exc" else "")
+            col.fail(sig, case, r[2])
+
+
 def exec_case(col, tmp, case):
     k = case["kind"]
     if k == "write":
@@ -1035,6 +1306,8 @@ def exec_case(col, tmp, case):
         exec_rechunk(col, tmp, case)
     elif k == "derived":
         exec_derived(col, tmp, case)
+    elif k == "concat":
+        exec_concat(col, tmp, case)
     else:
         raise ValueError(k)
 
@@ -1584,13 +1857,99 @@ def history_family(tier):
                     yield _derived(tname, None, rows, writes, mode=mode, gz=gz, source="read", header=header)
 
 
+def _concat(tname, origin, sels, groups="all", mode="one", gz=False, **kw):
+    return dict({"kind": "concat", "type": tname, "variant": None, "origin": origin, "header": "", "sels": list(sels), "groups": groups,
+                 "mode": mode, "gz": gz}, **kw)
+
+
+def concat_family(tier):
+    """several table objects joined with np.concatenate and written: tables read (lazily, where the format has lazy
+    tables) from files of their own, the chunks of one file, and built tables; every table of the join untouched or
+    row-selected - all ordered pairs of selection kinds, triples, tables of 1..3 rows -, the join written once, as one
+    of several pieces (successive writes / stream / append), nested, on a gzip target, row-selected again"""
+    thorough = tier == "thorough"
+    core = CONCAT_SELS[:4]
+    pairs_all = [(a, b) for a in CONCAT_SELS for b in CONCAT_SELS]
+    pairs_core = [(a, b) for a in core for b in core]
+    triples = [("whole", "mask", "whole"), ("whole", "whole", "tail"), ("mask", "whole", "list"), ("whole", "rev", "stride"),
+               ("whole", "empty", "whole"), ("whole", "repeat", "head"), ("last", "whole", "whole")]
+    if thorough:
+        triples += [t for t in itertools.product(core, repeat=3) if t not in triples]
+    grouped = [("first-alone", "multi"), ("last-alone", "stream"), ("nested", "one"), ("last-alone", "append"),
+               ("first-alone", "stream"), ("pairs", "multi")]
+    for tname in LAZY_TYPES:
+        p = pool(tname, None, tier)
+        K = len(p)
+        A, B, C = p[:3], p[3:6], [p[(2 * i + 1) % K] for i in range(4)]
+        for hi, header in enumerate(HEADERS[tname]):
+            # two tables: every ordered pair of selection kinds
+            for j, (a, b) in enumerate(pairs_all if thorough and hi == 0 else pairs_core):
+                if hi > 0 and not thorough and (a, b) not in (("whole", "mask"), ("mask", "whole"), ("whole", "whole"), ("whole", "list")):
+                    continue
+                yield _concat(tname, "files", (a, b), parts=[A, B], header=header, readback=(hi == 0 and "whole" in (a, b)))
+                if thorough and hi == 0 and a in core and b in core and "whole" in (a, b):
+                    yield _concat(tname, "files", (a, b), parts=[B, A[:2]], header=header, gz=True)
+                    yield _concat(tname, "files", (a, b), parts=[C[:1], C[1:]], header=header)
+                    yield _concat(tname, "files", (a, b), parts=[C, A[:1]], header=header)
+            yield _concat(tname, "files", ("whole", "mask"), parts=[A, B], header=header, gz=True, readback=hi == 0)
+            for post in (("tail", "mask") if hi == 0 or thorough else ("mask",)):
+                yield _concat(tname, "files", ("whole", "mask"), parts=[A, B], header=header, post=post)
+                if thorough:
+                    yield _concat(tname, "files", ("whole", "whole"), parts=[A, B], header=header, post=post)
+                    yield _concat(tname, "files", ("tail", "whole"), parts=[A, B], header=header, post=post)
+            # three and four tables; the join as one of several pieces
+            if hi == 0 or thorough:
+                for j, t in enumerate(triples if hi == 0 else triples[:7]):
+                    yield _concat(tname, "files", t, parts=[A, B, C], header=header, readback=thorough and j < 7)
+                    if j < 3 or (thorough and hi == 0 and j < 8):
+                        for g, mode in (grouped if thorough else grouped[:4] if j == 0 else grouped[j + 3:j + 4]):
+                            yield _concat(tname, "files", t, parts=[A, B, C], header=header, groups=g, mode=mode)
+                yield _concat(tname, "files", ("whole", "mask"), parts=[A, B, C, A[::-1]], header=header, groups="pairs", mode="multi")
+                if thorough:
+                    for s4 in (("whole", "mask"), ("whole", "whole", "whole", "tail"), ("list", "whole")):
+                        for g, mode in (("all", "one"), ("nested", "one"), ("pairs", "stream"), ("pairs", "append"), ("first-alone", "multi")):
+                            yield _concat(tname, "files", s4, parts=[A, B, C, A[::-1]], header=header, groups=g, mode=mode,
+                                          gz=(g == "pairs" and mode == "stream"))
+            # the chunks of one file as read_chunks delivers them
+            rows = [p[i % K] for i in (0, 1, 2, 3, 1, 0, 2, 3, 3, 0)]
+            body = ref.serialise(SPECS[tname], rows, fasta_width())
+            sizes = [len(body) // 3, len(body) // 2 + 1] + ([len(body) // 5, len(body) + len(header) + 7] if thorough and hi == 0 else [])
+            for ci, chunk in enumerate(sizes):
+                cyc = [("whole", "tail"), ("tail", "whole"), ("whole",), ("whole", "whole", "mask"), ("whole", "list")]
+                if thorough:
+                    cyc += [("mask", "whole"), ("whole", "rev", "whole"), ("whole", "empty"), ("whole", "last"), ("whole", "stride", "repeat")]
+                elif hi > 0 or ci > 0:
+                    cyc = cyc[:1] + cyc[3:4]
+                for si, sels in enumerate(cyc):
+                    yield _concat(tname, "chunks", sels, rows=rows, chunk=chunk, header=header, readback=(hi == 0 and ci == 0))
+                    if thorough and ci < 2 and si < 5:
+                        yield _concat(tname, "chunks", sels, rows=rows, chunk=chunk, header=header, groups="pairs", mode="stream")
+                        yield _concat(tname, "chunks", sels, rows=rows, chunk=chunk, header=header, groups="first-alone", mode="multi", gz=True)
+    # built tables (every type and column encoding)
+    for minor, tvs in ((False, TYPE_VARIANTS), (True, MINOR_VARIANTS)):
+        for tname, variant in tvs:
+            p = pool(tname, variant, tier)
+            K = len(p)
+            A, B, C = p[:3], p[3:6], [p[(2 * i + 1) % K] for i in range(4)]
+            bp = pairs_core if thorough and not minor else [("whole", "mask"), ("mask", "whole"), ("whole", "whole"), ("list", "tail")]
+            for a, b in (bp[:2] if minor and not thorough else bp):
+                yield _concat(tname, "built", (a, b), parts=[A, B], variant=variant, readback=not minor)
+            if not minor:
+                yield _concat(tname, "built", ("whole", "mask", "whole"), parts=[A, B, C], variant=variant, groups="nested")
+                yield _concat(tname, "built", ("whole", "mask", "rev"), parts=[A, B, C], variant=variant, groups="first-alone", mode="append")
+                if thorough:
+                    for t in triples[:7]:
+                        yield _concat(tname, "built", t, parts=[A, B, C], variant=variant, gz=t[0] == "mask")
+                    yield _concat(tname, "built", ("whole", "mask"), parts=[A, B], variant=variant, post="tail")
+
+
 def all_cases(tier, rng=None):
     K = 4 if tier == "quick" else 6
     K3 = 3 if tier == "quick" else 5
     kminor = 2 if tier == "quick" else 3
     # round 1: every type, tables of 0..2 rows; then the small families; round 2: 3-row tables
     plans = [(tv, K, K3) for tv in TYPE_VARIANTS] + [(tv, kminor, kminor) for tv in MINOR_VARIANTS]
-    for fam in (history_family(tier), derived_family(tier)):      # first: they are never the part cut off by the time budget
+    for fam in (history_family(tier), derived_family(tier), concat_family(tier)):      # first: they are never the part cut off by the time budget
         for c in fam:
             yield c
     for n_rows in (0, 1, 2, 3):
@@ -1634,9 +1993,11 @@ def run(tier="quick", seed=0):
                     "doubles of every text shape (significant digits x sign x exponent form, text length 3..24) + seeded doubles by bit pattern; per type row "
                     "selections (reverse, permutation, mask, stride, tail, repeat, empty, rotate, composed; all index lists / masks / "
                     "slices of 3-row tables) of built and of read tables, and histories that write one table object (and its "
-                    "selections) several times with the frame condition 'table unchanged'.  distinct = distinct (type, variant, rows, split, mode, target); "
+                    "selections) several times with the frame condition 'table unchanged'; joins (np.concatenate) of 2..4 tables "
+                    "read from separate files / chunks of one file / built, each untouched or row-selected (all ordered pairs of "
+                    "selection kinds), written once, as a piece among others, nested, on gzip, row-selected again.  distinct = distinct (type, variant, rows, split, mode, target); "
                     "non-trivial = all (each writes a file and compares all bytes with the reference serialisation)",
-                    budget_s=73 if tier == "quick" else 700)
+                    budget_s=85 if tier == "quick" else 760)
     col.bounds = {"types": [t + (":" + v if v else "") for t, v in TYPE_VARIANTS + MINOR_VARIANTS],
                   "pool_rows_K": K, "rows_per_table": "0..3", "three_row_tables": "K*K sample" if tier == "quick" else "all K^3",
                   "fasta_lengths": fasta_lengths(tier), "fasta_width": [fasta_width(), 1, 2, 3, 7], "fastq_lengths": FASTQ_LENGTHS[:K],
@@ -1654,7 +2015,12 @@ def run(tier="quick", seed=0):
                                        " and 4-row tables (key types)" if tier == "thorough" else " (key types)"),
                   "one_table_histories": "same object written 2..3 times x {multi, stream, append, files} x {plain, gz}; slices of one "
                                          "object as pieces (compositions of %s rows); object vs its selection; derived before / after "
-                                         "the previous write" % ("1..4" if tier == "thorough" else "3")}
+                                         "the previous write" % ("1..4" if tier == "thorough" else "3"),
+                  "concatenations": "np.concatenate of 2..4 tables of 1..4 rows; origin {files read lazily, chunks of one 10-row file at "
+                                    "%d chunk sizes, built}; per table a selection of %s (%s ordered pairs; triples%s); groups "
+                                    "{all, nested, first-alone, last-alone, pairs} x {one, multi, stream, append}; gzip; selection of the join"
+                                    % (4 if tier == "thorough" else 2, list(CONCAT_SELS if tier == "thorough" else CONCAT_SELS[:4]),
+                                       "all" if tier == "thorough" else "all 16 of the first four, lazy types", ": all 64 of the first four" if tier == "thorough" else "")}
     import logging
     logging.disable(logging.WARNING)          # the library logs a warning per VCF read / header context; not a verdict
     try:
